@@ -81,6 +81,11 @@ func (t *Transport) RoundTrip(req *http.Request) (*http.Response, error) {
 
 	if len(res.HTTPS) > 0 && req.URL.Scheme == "http" {
 		req.URL.Scheme = "https"
+		// The upgraded request goes to the https port, also when none
+		// of the records can be used. RFC 9460 section-9.5
+		if res.Port == 80 {
+			res.Port = 443
+		}
 	}
 
 	h, p, err := net.SplitHostPort(req.URL.Host)
